@@ -276,6 +276,26 @@ pub fn pre_advance(info: &Info) -> BoxedStrategy<usize> {
     }
 }
 
+/// boundary values of u64 arithmetic: 0, 1, MAX, and 2^k, 2^k +- 1, -(2^k) for every k
+pub fn boundary_u64() -> BoxedStrategy<u64> {
+    prop_oneof![
+        1 => Just(0u64),
+        1 => Just(1u64),
+        1 => Just(u64::MAX),
+        12 => (0u32..64, 0u8..5).prop_map(|(k, m)| {
+            let p = 1u64 << k;
+            match m {
+                0 => p,
+                1 => p.wrapping_sub(1),
+                2 => p.wrapping_add(1),
+                3 => p.wrapping_neg(),
+                _ => p.wrapping_neg().wrapping_sub(1),
+            }
+        }),
+    ]
+    .boxed()
+}
+
 pub fn interesting_u64() -> BoxedStrategy<u64> {
     prop_oneof![
         2 => Just(0u64),
@@ -447,6 +467,11 @@ pub fn hostile_delta() -> BoxedStrategy<u64> {
         3 => (-3i64..=3).prop_map(|k| (-(1i64 << 31) + k) as u64),
         3 => (-3i64..=3).prop_map(|k| ((1i64 << 32) + k) as u64),
         2 => (1u64..=4).prop_map(|k| k << 32),
+        // every power-of-two boundary, both directions (incl. exactly +-2^63)
+        3 => (20u32..64, -2i64..=2, any::<bool>()).prop_map(|(k, e, neg)| {
+            let v = (1u64 << k).wrapping_add(e as u64);
+            if neg { v.wrapping_neg() } else { v }
+        }),
         2 => (1u64..5000).prop_map(|k| (k as i64).wrapping_neg() as u64),
         1 => any::<u64>(),
         2 => any::<u32>().prop_map(|v| v as u64),
